@@ -21,5 +21,6 @@ def run(prog, rep, tier):
     apply(rep, "V2", "family agreement of code and domain", r_dw.v2(prog), 14)
     apply(rep, "G2", "find_attribute finds exactly what is reachable through specification OR abstract_origin (abstract evaluation on DIE graphs)", r_dw.g2(prog), 1)
     apply(rep, "G3", "`attribute` yields own attributes first, then each integrated name once, each wrapped with the DIE it was read from (attribute_producer interpreted on DIE graphs)", r_dw.g3(prog, tier), 1)
+    apply(rep, "M2", "`unit` lists every unit in raw mode and exactly the non-partial units in cooked mode, across all Dwarfs of a value (dwarf_unit_producer interpreted on abstract Dwarf lists)", r_dw.m2(prog, tier), 1)
     apply(rep, "M1", "a resolved DW_TAG_imported_unit is always replaced by the unit's children", r_dw.m1(prog), 1)
     maybe_mutants("C06", rep, tier)
